@@ -137,8 +137,14 @@ impl PacketSender {
     // Places a user packet on the send queue.
     pub fn enqueue_packet(&mut self, data: Box<[u8]>, channel_id: u8, mode: SendMode, flush_id: u32) {
         debug_assert!(data.len() <= MAX_PACKET_SIZE);
-        debug_assert!(data.len() <= self.max_alloc);
         debug_assert!((channel_id as usize) < CHANNEL_COUNT);
+
+        if data.len() > self.max_alloc {
+            // The receiver's advertised allocation limit can never hold this packet, so it could
+            // only block the send queue forever. Endpoints validate this during the handshake,
+            // but a misbehaving peer may advertise less than it accepted: discard the packet.
+            return;
+        }
 
         self.total_size += data.len();
         self.packet_send_queue.push_back(PacketSendEntry::new(data, channel_id, mode, flush_id));
